@@ -5,7 +5,11 @@ package dastard
 // Thin exported access for the out-of-tree verification harness (/verif/harness).
 // Compiled only with `-tags verif`; adds no behaviour to the normal build.
 
-import "time"
+import (
+	"time"
+
+	"github.com/spf13/viper"
+)
 
 // VerifRecord mirrors DataRecord with exported fields.
 type VerifRecord struct {
@@ -48,3 +52,190 @@ func VerifMessageRecords(v VerifRecord) [][]byte { return messageRecords(v.recor
 
 // VerifMessageSummaries is messageSummaries on an exported record.
 func VerifMessageSummaries(v VerifRecord) [][]byte { return messageSummaries(v.record()) }
+
+// ---------------------------------------------------------------------------------------------
+// Scripted source: the harness hands blocks to the real processing pipeline.
+
+// VerifSource embeds the real AnySource; Sample and StartRun do nothing, blocks are pushed by hand.
+type VerifSource struct {
+	AnySource
+	captured chan []*DataRecord
+}
+
+// NewVerifSource creates a scripted source with nchan channels.
+func NewVerifSource(nchan int, sampleRate float64) *VerifSource {
+	vs := new(VerifSource)
+	vs.name = "Verif"
+	vs.nchan = nchan
+	vs.sampleRate = sampleRate
+	vs.samplePeriod = time.Duration(roundint(1e9 / sampleRate))
+	return vs
+}
+
+// Sample fills in the per-channel facts a real source learns from the hardware.
+func (vs *VerifSource) Sample() error {
+	vs.rowColCodes = make([]RowColCode, vs.nchan)
+	for i := 0; i < vs.nchan; i++ {
+		vs.rowColCodes[i] = rcCode(0, i, 1, vs.nchan)
+	}
+	return nil
+}
+
+// StartRun does nothing: blocks come from VerifProcessBlock.
+func (vs *VerifSource) StartRun() error { return nil }
+
+// VerifSetSavedTriggers stores the "trigger" key PrepareRun restores settings from.
+func VerifSetSavedTriggers(fts []FullTriggerState) { viper.Set("trigger", fts) }
+
+// VerifPrepare runs the Start path up to (not including) the goroutines: Sample, PrepareChannels,
+// PrepareRun; published records are captured instead of going to ZeroMQ.
+func (vs *VerifSource) VerifPrepare(npre, nsamp int) error {
+	if PubRecordsChan == nil {
+		PubRecordsChan = make(chan []*DataRecord, 1)
+	}
+	if PubSummariesChan == nil {
+		PubSummariesChan = make(chan []*DataRecord, 1)
+	}
+	if err := vs.Sample(); err != nil {
+		return err
+	}
+	if err := vs.PrepareChannels(); err != nil {
+		return err
+	}
+	if err := vs.PrepareRun(npre, nsamp); err != nil {
+		return err
+	}
+	vs.captured = make(chan []*DataRecord, 4*vs.nchan+16)
+	for _, dsp := range vs.processors {
+		dsp.PubRecordsChan = vs.captured
+		dsp.PubSummariesChan = nil
+	}
+	return nil
+}
+
+// VerifSetSigned is a no-op placeholder: signedness travels with each block's segments.
+
+// VerifProcessBlock builds one dataBlock (one segment per channel), runs the real ProcessSegments
+// on it and returns the records it published, grouped per channel in publication order.
+func (vs *VerifSource) VerifProcessBlock(firstFrame int64, firstTimeNs int64, periodNs int64,
+	data [][]RawType, signed []bool, ext []int64, dropped int) (map[int][]VerifRecord, error) {
+	block := new(dataBlock)
+	block.segments = make([]DataSegment, len(data))
+	for i, d := range data {
+		seg := DataSegment{rawData: d, framesPerSample: 1, firstFrameIndex: FrameIndex(firstFrame),
+			firstTime: time.Unix(0, firstTimeNs), framePeriod: time.Duration(periodNs),
+			voltsPerArb: 1. / 65535.0, droppedFrames: dropped}
+		if i < len(signed) {
+			seg.signed = signed[i]
+		}
+		block.segments[i] = seg
+	}
+	block.externalTriggerRowcounts = ext
+	if len(data) > 0 {
+		block.nSamp = len(data[0])
+	}
+	err := vs.ProcessSegments(block)
+	out := make(map[int][]VerifRecord)
+	for {
+		select {
+		case batch := <-vs.captured:
+			for _, r := range batch {
+				out[r.channelIndex] = append(out[r.channelIndex], VerifFromRecord(r))
+			}
+			continue
+		default:
+		}
+		break
+	}
+	return out, err
+}
+
+// VerifDrainClientMessages empties the package-level client message channel (capacity 10) and
+// returns the tags seen; block processing stalls if nobody reads it.
+func VerifDrainClientMessages() []string {
+	var tags []string
+	for {
+		select {
+		case u := <-clientMessageChan:
+			tags = append(tags, u.tag)
+			continue
+		default:
+		}
+		return tags
+	}
+}
+
+// VerifNumberWritten reports each processor's written-record counter.
+func (vs *VerifSource) VerifNumberWritten() []int {
+	out := make([]int, len(vs.processors))
+	for i, dsp := range vs.processors {
+		out[i] = dsp.numberWritten
+	}
+	return out
+}
+
+// VerifChannelPaused reports each processor's own pause flag.
+func (vs *VerifSource) VerifChannelPaused() []bool {
+	out := make([]bool, len(vs.processors))
+	for i, dsp := range vs.processors {
+		out[i] = dsp.WritingPaused
+	}
+	return out
+}
+
+// VerifNewSourceControl returns a SourceControl whose active source is ds, as after a successful
+// Start, but without a CoreLoop: the harness services the request queue itself.
+func VerifNewSourceControl(ds DataSource, npre, nsamp int) *SourceControl {
+	sc := NewSourceControl()
+	sc.clientUpdates = clientMessageChan
+	sc.mapServer = newMapServer()
+	sc.mapServer.clientUpdates = clientMessageChan
+	sc.ActiveSource = ds
+	sc.isSourceActive = true
+	sc.status.Running = true
+	sc.status.Npresamp = npre
+	sc.status.Nsamples = nsamp
+	return sc
+}
+
+// VerifQueue is the queue of closures the core loop would run between blocks.
+func (s *SourceControl) VerifQueue() chan func() { return s.queuedRequests }
+
+// VerifSetActive overrides the RPC layer's idea of whether a source is active.
+func (s *SourceControl) VerifSetActive(active bool) {
+	s.isSourceActive = active
+	s.status.Running = active
+}
+
+// ---------------------------------------------------------------------------------------------
+// Trigger broker
+
+// VerifBrokerDistribute calls the real Distribute with the given primary trigger frames.
+func VerifBrokerDistribute(b *TriggerBroker, prim map[int][]int64) map[int][]int64 {
+	in := make(map[int]triggerList)
+	for k, v := range prim {
+		fr := make([]FrameIndex, len(v))
+		for i, x := range v {
+			fr[i] = FrameIndex(x)
+		}
+		in[k] = triggerList{channelIndex: k, frames: fr}
+	}
+	res, _ := b.Distribute(in)
+	out := make(map[int][]int64)
+	for k, v := range res {
+		o := make([]int64, len(v))
+		for i, x := range v {
+			o[i] = int64(x)
+		}
+		out[k] = o
+	}
+	return out
+}
+
+// VerifBrokerState is the connection state reported to clients.
+func VerifBrokerState(b *TriggerBroker) map[int][]int {
+	return b.computeGroupTriggerState().Connections
+}
+
+// VerifBrokerCount is the broker's connection counter (the fast-path guard of Distribute).
+func VerifBrokerCount(b *TriggerBroker) int { return b.nconnections }
